@@ -9,6 +9,8 @@ open Restore Drv
     `eval <K> <F|T> <desc>`       -> out=.. log=.. snap=..   (one evaluation in the same interpreter; the hook
                                      panics at its K-th call of this evaluation, 0 = never; F: expression f0(),
                                      T: the statements of f0 as top-level code)
+    `resetd`                      -> ok          (fresh interpreter with OptDebugger and a scripted debugger)
+    `evald <K> <F|T> <desc>`      -> as eval, but started with Interp.Debug (single-step mode)
     `battery`                     -> same
     `<desc>` = functions f0/f1/... separated by `/`, statements separated by `,`:
     pN pad (N simple statements), h hook, cN call fN, dN defer fN(), r recover(), xV panic(V), tN try(fN). -/
@@ -36,19 +38,20 @@ def snap (s : St) : String :=
   let b (x : Bool) := if x then "1" else "0"
   let pf := match r.panicFun with | none => "n" | some 0 => "t" | some _ => "f"
   let inr := match r.interrupt with | .nil => "n" | .spin => "s"
-  s!"es={b r.efStart} ed={b r.efDefer} dof={optS r.deferOfFun} pf={pf} pv={r.panicVal.getD 0} ce={optS r.currEnv} in={inr}"
+  s!"es={b r.efStart} ed={b r.efDefer} dof={optS r.deferOfFun} pf={pf} pv={r.panicVal.getD 0} ce={optS r.currEnv} in={inr} dbg={b r.efDebug} dd={if r.debugDepth then "M" else "0"} sd={b r.sigDebug} at={b s.atc}"
 
 def stepC12 (s : St) (line : String) : St × String :=
   let (op, arg) := cut line
   match op with
   | "reset" => ({}, "ok")
+  | "resetd" => ({}, "ok")
   | "battery" => (s, "same")
-  | "eval" =>
+  | "eval" | "evald" =>
     match arg.splitOn " " with
     | [k, kind, desc] =>
       let P := mkProg desc k.toNat!
-      let s0 := { s with hooks := 0, log := [] }
-      let (o, s1) := evalTop P 100000 (if kind == "T" then .topCode else .callF) 0 s0
+      let s0 := { s with hooks := 0, log := [], atc := false }
+      let (o, s1) := evalTop P 100000 (op == "evald") (if kind == "T" then .topCode else .callF) 0 s0
       let os := match o with | .ok => "ok" | .panic v => s!"panic {v}"
       (s1, s!"out={os} log={",".intercalate (s1.log.reverse.map toString)} {snap s1}")
     | _ => (s, "bad-op")
